@@ -205,3 +205,25 @@ package commonmark
 //@   unclaimed dec terminates when the reader reaches the end of the stream (needs a stream of finite length)
 //@   unclaimed pre@(*BlockParser).makeRoot the pending top-level blocks are non-nil and end inside the scanned part of the buffer (assumption A-C01-1, DESIGN 7.1)
 //@   serves C01, C08, C04
+
+// ---------------------------------------------------------------------------
+// Entry points (C01, C08, C04).  Parse builds the same machine as
+// NewBlockParser with the whole (padded) input as its buffer and end-of-input
+// already latched, so NextBlock can only ever report io.EOF and the panic is
+// unreachable.  Reference extraction and inline rewriting are abstracted here
+// (they cannot write a BlockParser field).
+// ---------------------------------------------------------------------------
+
+//@ func NewBlockParser
+//@   requires r != nil
+//@   modifies alloc
+//@   ensures[init] !isnil(result) && fresh(result) && result.lineno == 1 && result.offset == 0 && result.i == 0 && len(result.buf) == 0 && result.err == nil && result.r == r && len(result.blocks) == 0
+//@   serves C01, C08, C04
+
+//@ func Parse
+//@   requires 3 * len(source) <= 281474976710656
+//@   modifies everything
+//@   havoccall (*InlineParser).Rewrite, ReferenceMap.Extract keeps BlockParser
+//@   loop 0: invariant[p] !isnil(p) && fresh(p) && 0 <= p.i && p.i <= len(p.buf) && p.err != nil && p.err == global("io.EOF") && 1 <= p.lineno && 0 <= p.offset
+//@   unclaimed dec:0 terminates because every block consumes input (NextBlock's progress is not under contract)
+//@   serves C01, C08, C04
